@@ -33,7 +33,11 @@ func c19keys() []c19key {
 	lv := []string{"debug", "warn", "error", "info"}
 	return []c19key{
 		{"all", "all", bools},
-		{"dir", "dir", func(l int) any { return "out/" + c19levels[l] + "/{{.InterfaceName}}" }},
+		// path-valued strings are deliberately not in "clean" form: they are values like any other and must come
+		// through byte for byte (cleaning "{{.InterfaceDir}}/../mocks" before it is expanded changes its meaning)
+		{"dir", "dir", func(l int) any {
+			return []string{"./out/top/{{.InterfaceName}}/", "out//pkg/{{.InterfaceName}}/.", "{{.InterfaceDir}}/../mocks_iface", "out/cfgs/../cfgs/{{.InterfaceName}}"}[l]
+		}},
 		{"mockname", "structname", func(l int) any { return "MN_" + c19levels[l] + "_{{.InterfaceName}}" }},
 		{"outpkg", "pkgname", mk("pk")},
 		{"include-regex", "include-interface-regex", func(l int) any { return "^Inc" + c19levels[l] + ".*$" }},
@@ -41,9 +45,9 @@ func c19keys() []c19key {
 		{"exclude", "exclude-subpkg-regex", func(l int) any { return []any{"ex-" + c19levels[l], "second/" + c19levels[l]} }},
 		{"recursive", "recursive", func(l int) any { return l%2 == 1 }},
 		{"log-level", "log-level", func(l int) any { return lv[l] }},
-		{"config", "config", func(l int) any { return "cfg-" + c19levels[l] + ".yml" }},
+		{"config", "config", func(l int) any { return "./conf/../cfg-" + c19levels[l] + ".yml" }},
 		{"_anchors", "_anchors", func(l int) any { return map[string]any{"anchor": "a-" + c19levels[l], "n": map[string]any{"k": l}} }},
-		{"boilerplate-file", "template-data.boilerplate-file", func(l int) any { return "bp-" + c19levels[l] + ".txt" }},
+		{"boilerplate-file", "template-data.boilerplate-file", func(l int) any { return "./bp//" + c19levels[l] + "/../bp.txt" }},
 		{"mock-build-tags", "template-data.mock-build-tags", func(l int) any { return "tag_" + c19levels[l] + " && !x" }},
 		{"unroll-variadic", "template-data.unroll-variadic", bools},
 	}
